@@ -277,6 +277,10 @@ class TokenParser(Parser):
         nametok = tokens.consume()
 
         field_names = {field._name for field in previous_fields or []}
+        for field in previous_fields or []:
+            if field.name is None and hasattr(field.type, "fields"):
+                # The fields of an anonymous structure member are fields of this structure as well
+                field_names.update(field.type.fields)
         type_, name, bits = self._parse_field_type(type_, nametok.value, field_names)
 
         tokens.eol()
